@@ -19,11 +19,13 @@ package main
 import (
 	"context"
 	"fmt"
+	"github.com/synnaxlabs/x/observe"
 	"runtime"
 	"sort"
 	"strings"
 	"sync"
 	"sync/atomic"
+	"time"
 
 	"github.com/cockroachdb/pebble/v2"
 	"github.com/cockroachdb/pebble/v2/vfs"
@@ -105,8 +107,25 @@ func (t *failTx) Commit(ctx context.Context, opts ...any) error {
 	return t.Tx.Commit(ctx, opts...)
 }
 
+// subHook is the observable the indexes subscribe to: the store's own, with a callback
+// run at the moment an index observer subscribes (a write replicated from another node
+// may be persisted exactly then).
+type subHook struct {
+	inner       observe.Observable[kv.TxReader]
+	onSubscribe func()
+}
+
+func (s *subHook) OnChange(h func(context.Context, kv.TxReader)) observe.Disconnect {
+	d := s.inner.OnChange(h)
+	if f := s.onSubscribe; f != nil {
+		f()
+	}
+	return d
+}
+
 type store struct {
 	ctx  context.Context
+	hook *subHook
 	fkv  *failKV
 	db   *gorp.DB
 	tbl  *gorp.Table[uint32, Row]
@@ -135,7 +154,8 @@ func (s *store) openTable(wait bool) error {
 
 func openStore(pre []Row, wait bool) (*store, error) {
 	fkv := &failKV{DB: newMemKV()}
-	s := &store{ctx: context.Background(), fkv: fkv, db: gorp.Wrap(fkv)}
+	hook := &subHook{inner: fkv}
+	s := &store{ctx: context.Background(), fkv: fkv, hook: hook, db: gorp.Wrap(fkv, gorp.WithIndexObservable(hook))}
 	if len(pre) > 0 {
 		rows := append([]Row{}, pre...)
 		if err := gorp.NewCreate[uint32, Row]().Entries(&rows).Exec(s.ctx, s.db); err != nil {
@@ -591,6 +611,7 @@ type finding struct {
 type stats struct {
 	Ops, Queries, QueriesNonEmpty, InTxWithOwnWrites, WithForeignUncommitted, Ordered, Gets int
 	Commits, Aborts, Reopens, RawWrites, Updates, Deletes, Creates, FailedCommits           int
+	WritesDuringOpen                                                                        int
 	FilterUpdates, OrderedShort                                                             int
 }
 
@@ -876,10 +897,54 @@ func (w *world) apply(o op) {
 			}
 		}
 		_ = w.s.tbl.Close()
-		if err := w.s.openTable(o.Wait); err != nil {
+		// half of the reopens: a row written past the table (the path replicated writes
+		// take) is persisted at the very moment the index observer subscribes
+		var injected *Row
+		done := make(chan error, 1)
+		if len(o.Rows) > 0 {
+			r := o.Rows[0]
+			injected = &r
+			fired := false
+			w.s.hook.onSubscribe = func() {
+				if fired {
+					return
+				}
+				fired = true
+				delivered := make(chan struct{})
+				go func() {
+					rows := []Row{r}
+					done <- gorp.NewCreate[uint32, Row]().Entries(&rows).Exec(ctx, w.s.db)
+					close(delivered)
+				}()
+				select { // a handler that waits for the bulk load must not hold up the subscription
+				case <-delivered:
+				case <-time.After(100 * time.Millisecond):
+				}
+			}
+		}
+		err := w.s.openTable(o.Wait)
+		w.s.hook.onSubscribe = nil
+		if err != nil {
 			w.report("c17:harness:reopen-failed", err.Error())
 			w.stop = true
 			return
+		}
+		if injected != nil {
+			select {
+			case werr := <-done:
+				if werr != nil {
+					w.report("c17:write:error", fmt.Sprintf("write during reopen: %v", werr))
+					w.stop = true
+					return
+				}
+				w.write(-1, injected.K, injected)
+				w.st.RawWrites++
+				w.st.WritesDuringOpen++
+			case <-time.After(20 * time.Second):
+				w.report("c17:harness:write-during-reopen-did-not-return", "")
+				w.stop = true
+				return
+			}
 		}
 		w.st.Reopens++
 	case "query":
@@ -1359,7 +1424,11 @@ func genScript(r *prng.R) script {
 		case x < 50:
 			sc.Ops = append(sc.Ops, op{K: "rawdel", Slot: -1, Keys: pickKeys(1, 2)})
 		case x < 52:
-			sc.Ops = append(sc.Ops, op{K: "reopen", Slot: -1, Wait: r.Chance(1, 3)})
+			ro := op{K: "reopen", Slot: -1, Wait: r.Chance(1, 3)}
+			if r.Bool() {
+				ro.Rows = []Row{genRow(r, pickKeys(1, 1)[0])}
+			}
+			sc.Ops = append(sc.Ops, ro)
 		case x < 86:
 			f := genTree(r, 3, keys, dup)
 			sc.Ops = append(sc.Ops, op{K: "query", Slot: pickSlot(), Kind: prng.Pick(r, []string{"exec", "exec", "exec", "count", "exists"}), F: &f})
@@ -1550,6 +1619,7 @@ func addStats(h *harness.H, st *stats) {
 	h.Count("tx_commits", st.Commits)
 	h.Count("tx_aborts", st.Aborts)
 	h.Count("tx_commits_refused_by_the_store", st.FailedCommits)
+	h.Count("raw_writes_persisted_while_the_index_observer_subscribes", st.WritesDuringOpen)
 	h.Count("table_reopens_bulk_populate", st.Reopens)
 	h.Count("observer_propagated_writes", st.RawWrites)
 	h.Count("creates", st.Creates)
